@@ -5,6 +5,8 @@ CONSTANTS
   MaxDepth = 2
   MaxTries = 2
   Faulty = TRUE
+  Extra = 0
+  Reparse = FALSE
 INIT Init
 NEXT Next
 CONSTRAINT Bounded
